@@ -265,8 +265,8 @@ def run_e2(res, tier):
             bad("%d parts accept one document: %s" % (len(accepted), [t for t, _ in accepted]), "ambiguous")
     res.parts["e2_cases"] = len(cases)
     res.parts["e2_documents"] = sum(1 for e in exp if e[5] != "dispatch")
-    ex = [e for e in exp if e[5] == "same_key_twice"][0]
-    res.sample({"document": ex[6], "operator": ex[5], "program": ex[0], "targets": ex[7], "observations": obs[ex[8]:ex[8] + len(ex[7])]})
+    ex = ([e for e in exp if e[5] == "same_key_twice"] or [None])[0]
+    res.sample(lambda: {"document": ex[6], "operator": ex[5], "program": ex[0], "targets": ex[7], "observations": obs[ex[8]:ex[8] + len(ex[7])]})
 
 
 def run(tier):
